@@ -362,6 +362,35 @@ fn main() {
       rules_total += docs.len();
       docs.par_iter().for_each(|d| run_doc(&rep, lang, d, "shadowed-global-util:", &trees2, &stats));
     }
+    // a GLOBAL utility with CONSTRAINTS of its own: `matches: g` holds exactly where g's rule matches
+    // and g's constraints hold (under not / has / all / any as well)
+    {
+      let cons_rules: Vec<R> = vec![R::Kind(la.kinds[0].to_string()), R::Regex(la.regexes[0].to_string()), R::Not(Box::new(R::Kind(la.kinds[1].to_string())))];
+      let bodies: Vec<R> = vec![R::Pat("$X".into()), R::Any(vec![R::Pat("$X".into()), R::Kind(la.kinds[2].to_string())])];
+      let mut docs = vec![];
+      for body in &bodies {
+        for cr in &cons_rules {
+          let m = R::Matches("g".into());
+          let uses: Vec<R> = vec![
+            m.clone(),
+            R::All(vec![m.clone(), R::Any(vec![R::Kind(la.kinds[0].to_string()), R::Kind(la.kinds[2].to_string())])]),
+            R::Any(vec![m.clone(), R::Kind(la.kinds[1].to_string())]),
+            R::Has(Box::new(Rel { rule: m.clone(), stop: Stop::End, field: None })),
+            R::Inside(Box::new(Rel { rule: m.clone(), stop: Stop::Neighbor, field: None })),
+            R::All(vec![R::Kind(la.kinds[1].to_string()), R::Not(Box::new(m.clone()))]),
+          ];
+          for u in uses {
+            let mut d = RuleDoc::simple(u);
+            let mut cons = std::collections::BTreeMap::new();
+            cons.insert("X".to_string(), cr.clone());
+            d.globals.insert("g".into(), (body.clone(), cons));
+            docs.push(d);
+          }
+        }
+      }
+      rules_total += docs.len();
+      docs.par_iter().for_each(|d| run_doc(&rep, lang, d, "global-util-with-constraints:", &trees2, &stats));
+    }
     // `field` x rule-valued `stopBy` family over a WIDER kind list (the kinds that occur as field
     // children are internal nodes such as `arguments`, absent from the general atom list): the
     // field child may itself be the stop node, an inner match, both or neither
@@ -411,7 +440,7 @@ fn main() {
   let cov = json!({
     "evaluations": stats.evals.load(Ordering::Relaxed),
     "distinct_nontrivial": stats.nontrivial_rules.load(Ordering::Relaxed),
-    "rule": "every rule tree of depth <= 2 over per-language atoms (rulegen.rs: all/any/not, inside/has/precedes/follows x stopBy neighbor|end|rule x field, nthChild An+B/reverse/ofRule, multi-key objects; plus documents in which a kind-less local utility shadows a global utility of the same id; plus has/inside with every (field, inner kind, stop kind) over a kind list widened by the kinds of field children; plus every `range` with lines 0..3 x character columns 0..5, alone and under obj/not/inside/has, on every space-or-newline layout of every token string) loaded through the real YAML deserialiser, against every node of every tree parsed from token strings <= L without zero-width nodes; an evaluation is one (rule, node) pair; distinct_nontrivial = number of distinct rules that matched at least one node and rejected at least one node",
+    "rule": "every rule tree of depth <= 2 over per-language atoms (rulegen.rs: all/any/not, inside/has/precedes/follows x stopBy neighbor|end|rule x field, nthChild An+B/reverse/ofRule, multi-key objects; plus documents in which a kind-less local utility shadows a global utility of the same id; plus `matches` of a global utility that has constraints of its own; plus has/inside with every (field, inner kind, stop kind) over a kind list widened by the kinds of field children; plus every `range` with lines 0..3 x character columns 0..5, alone and under obj/not/inside/has, on every space-or-newline layout of every token string) loaded through the real YAML deserialiser, against every node of every tree parsed from token strings <= L without zero-width nodes; an evaluation is one (rule, node) pair; distinct_nontrivial = number of distinct rules that matched at least one node and rejected at least one node",
     "samples": samples.take(),
     "exhaustive": true,
     "rules": rules_total,
